@@ -71,6 +71,13 @@ Fixpoint eqvb (p t : val) {struct p} : bool :=
 Section Match.
   Variable mk : N -> option mkind.        (* Meta.LookupVar *)
 
+  (* got.Kind() == reflect.Ptr && got.IsNil() *)
+  Definition nil_pointer (t : val) : bool :=
+    match t with
+    | Nil tp => match assoc tp ptr_table with Some _ => true | None => false end
+    | _ => false
+    end.
+
   (* MetavarMatcher.TypeMatches on the dynamic type of the candidate *)
   Definition kind_ok (k : mkind) (t : val) : bool :=
     match k with
@@ -80,6 +87,8 @@ Section Match.
            literal and the "..." of [...]T and ...T (repo fix 63c8bdb) *)
         implements (dyn_type t) T_ast_Expr
         && negb (N.eqb (dyn_type t) T_P_ast_KeyValueExpr) && negb (N.eqb (dyn_type t) T_P_ast_Ellipsis)
+        (* nor is a nil pointer (the label a bare "break" does not have), whatever its type implements *)
+        && negb (nil_pointer t)
     end.
 
   (* "for ... {" : a *ast.ForStmt whose Cond is a dots and that has no Init/Post *)
